@@ -528,7 +528,7 @@ func (e *Engine) Explore(name string) (*HarnessResult, error) {
 					hr.Completed++
 				case "ok", "panic", "blocked":
 					hr.Completed++
-					if len(hr.Samples) < 6 || (len(res.Obs) > 0 && len(hr.Samples) < 12) {
+					if len(hr.Samples) < 6 || (hr.Completed%37 == 0 && len(hr.Samples) < 24) {
 						hr.Samples = append(hr.Samples, PathSample{res.Status, trunc(res.Msg, 200), len(res.Decisions), res.Model, res.Obs})
 					}
 				case "infeasible":
